@@ -134,7 +134,7 @@ pub open spec fn distinct_members(m: Seq<Member>) -> bool { forall|i: int, j: in
 // sort_by and the zip over neighbours go through E11 to shim functions carrying the ASSUMED std semantics (permutation, sorted,
 // neighbouring pairs); the body of validate_unique_members itself is verified (the thorough tier also runs a bounded Kani harness)
 @fn contracts/cw4-group/src/helpers.rs validate_unique_members [closures: 1; loops: 1]
-@ensures C09.validate_unique_members C14
+@ensures C09.validate_unique_members C14 C06
     r is Ok ==> distinct_members(final(members)@) && final(members)@.len() == old(members)@.len()
         && exists|p: Seq<int>| is_perm(p, old(members)@.len() as int) && forall|i: int| 0 <= i < final(members)@.len() ==> #[trigger] final(members)@[i] == old(members)@[p[i]]
 @adapter sort_by 1
@@ -181,13 +181,13 @@ pub open spec fn only_members_keys(s: Raw, m: Seq<Member>, n: int) -> bool {
 @fn contracts/cw4-group/src/contract.rs create [loops: 1; closures: 1]
 @requires
     forall|k: Seq<u8>| old(deps.storage).view().contains_key(k) ==> k == cw2_key()
-@ensures C09.create_total_is_sum C14
+@ensures C09.create_total_is_sum C14 C06
     r is Ok ==> inv(final(deps.storage).view())
 @ensures C14.create_admin
     r is Ok ==> admin_of(final(deps.storage).view(), "admin"@) is Some
         && (admin is None ==> admin_of(final(deps.storage).view(), "admin"@)->Some_0 is None)
         && (admin is Some ==> admin_of(final(deps.storage).view(), "admin"@)->Some_0 is Some && admin_of(final(deps.storage).view(), "admin"@)->Some_0->Some_0@ == admin->Some_0@)
-@ensures C09.create_members_as_given
+@ensures C09.create_members_as_given C06
     r is Ok ==> forall|j: int| 0 <= j < members@.len() ==> member_of(final(deps.storage).view(), (#[trigger] members@[j]).addr@) == Some(members@[j].weight)
 @closure 1 C14.create_admin_validate
     (res: StdResult<Addr>)
@@ -289,11 +289,11 @@ pub open spec fn step_update_members(s: Raw, t: Raw, sender: Seq<char>, h: u64, 
 @fn contracts/cw4-group/src/contract.rs update_members [loops: 2; closures: 1]
 @requires
     inv(old(deps.storage).view())
-@ensures C14.update_members_admin_and_truthful_diffs C09
+@ensures C14.update_members_admin_and_truthful_diffs C09 C06
     r is Ok ==> step_update_members(old(deps.storage).view(), final(deps.storage).view(), sender@, height, r->Ok_0.diffs@)
-@ensures C09.update_members_total_is_sum C14
+@ensures C09.update_members_total_is_sum C14 C06
     r is Ok ==> inv(final(deps.storage).view())
-@ensures C09.update_members_removed_are_gone
+@ensures C09.update_members_removed_are_gone C06
     r is Ok ==> forall|j: int| 0 <= j < to_remove@.len() ==> member_of(final(deps.storage).view(), (#[trigger] to_remove@[j])@) is None
 @ensures C14.update_members_frame
     r is Ok ==> admin_of(final(deps.storage).view(), "admin"@) == admin_of(old(deps.storage).view(), "admin"@)
@@ -399,12 +399,12 @@ pub open spec fn step_update_members(s: Raw, t: Raw, sender: Seq<char>, h: u64, 
 @fn contracts/cw4-group/src/contract.rs execute_update_members [closures: 1]
 @requires
     inv(old(deps.storage).view())
-@ensures C14.update_notifies_each_hook_once C09
+@ensures C14.update_notifies_each_hook_once C09 C06
     r is Ok ==> exists|m: MemberChangedHookMsg| #![auto]
         step_update_members(old(deps.storage).view(), final(deps.storage).view(), info.sender@, env.block.height, m.diffs@)
         && r->Ok_0.messages@.len() == hooks_of(old(deps.storage).view(), "cw4-hooks"@).len()
         && forall|i: int| 0 <= i < r->Ok_0.messages@.len() ==> is_hook_msg(#[trigger] r->Ok_0.messages@[i], hooks_of(old(deps.storage).view(), "cw4-hooks"@)[i]@, m)
-@ensures C09.execute_update_members_inv
+@ensures C09.execute_update_members_inv C06
     r is Ok ==> inv(final(deps.storage).view())
 @closure_types 1
     h: Addr
@@ -458,9 +458,9 @@ pub proof fn lemma_c14_frozen_history(tr: Seq<Raw>, i: int, j: int)
 @fn contracts/cw4-group/src/contract.rs execute [closures: 1]
 @requires
     inv(old(deps.storage).view())
-@ensures C14.execute_step C09
+@ensures C14.execute_step C09 C06
     r is Ok ==> step_msg(old(deps.storage).view(), final(deps.storage).view(), info.sender@, env.block.height, msg)
-@ensures C09.execute_inv
+@ensures C09.execute_inv C06
     r is Ok ==> inv(final(deps.storage).view())
 @ensures C14.execute_dispatch_msgs
     r is Ok ==> match msg {
@@ -492,13 +492,13 @@ pub proof fn lemma_c14_frozen_history(tr: Seq<Raw>, i: int, j: int)
 @fn contracts/cw4-group/src/contract.rs instantiate
 @requires
     old(deps.storage).view() == SMap::<Seq<u8>, Seq<u8>>::empty()
-@ensures C09.instantiate_inv C14
+@ensures C09.instantiate_inv C14 C06
     r is Ok ==> inv(final(deps.storage).view())
 @ensures C14.instantiate_admin_as_given
     r is Ok ==> admin_of(final(deps.storage).view(), "admin"@) is Some
         && (msg.admin is None ==> admin_of(final(deps.storage).view(), "admin"@)->Some_0 is None)
         && (msg.admin is Some ==> admin_of(final(deps.storage).view(), "admin"@)->Some_0 is Some && admin_of(final(deps.storage).view(), "admin"@)->Some_0->Some_0@ == msg.admin->Some_0@)
-@ensures C09.instantiate_members_as_given
+@ensures C09.instantiate_members_as_given C06
     r is Ok ==> forall|j: int| 0 <= j < msg.members@.len() ==> member_of(final(deps.storage).view(), (#[trigger] msg.members@[j]).addr@) == Some(msg.members@[j].weight)
 @end
 
@@ -526,7 +526,7 @@ pub proof fn lemma_c14_frozen_history(tr: Seq<Raw>, i: int, j: int)
 pub open spec fn str_cursor(c: Option<String>) -> Option<Seq<u8>> { match c { Some(s) => Some(utf8(s@)), None => None } }
 
 @fn contracts/cw4-group/src/contract.rs query_list_members [closures: 2]
-@ensures C20.list_members_page C09
+@ensures C20.list_members_page C09 C06
     r is Ok ==> ({
         let pg = page(listing(deps.storage.view(), "members"@, Seq::<u8>::empty(), false), str_cursor(start_after), limit);
         r->Ok_0.members@.len() == pg.len() && forall|i: int| 0 <= i < pg.len() ==> utf8((#[trigger] r->Ok_0.members@[i]).addr@) == pg[i].0
